@@ -401,6 +401,8 @@ seed("C20.R1.timeout-depends-on-slots", 'C20', 'C20.R1:handle:timeout-is-the-con
      ('memcrs/src/memcache_server/client_handler.rs', '                Duration::from_secs(self.config.rx_timeout_secs as u64),', '                Duration::from_secs(if self.limit_connections.available_permits() == 0 { self.config.rx_timeout_secs.min(5) } else { self.config.rx_timeout_secs } as u64),'))
 
 # ---------------------------------------------------------------- neutral variants
+neutral("N.futures-imported", "the server module imports futures::FutureExt: rustc then prints std::future::Future as futures::Future (std alias renaming)",
+        ('memcrs/src/memcache_server/memc_tcp.rs', "use tokio::io;\nuse tokio::net::TcpListener;", "#[allow(unused_imports)]\nuse futures::FutureExt;\nuse tokio::io;\nuse tokio::net::TcpListener;"))
 neutral("N.rename-local", "rename a local in MemoryStore::set",
         (STORE, "            let cas = self.get_cas_id();\n            record.header.cas = cas;", "            let fresh = self.get_cas_id();\n            let cas = fresh;\n            record.header.cas = cas;"))
 neutral("N.expiry-rewritten", "expiry predicate written as now - ts >= ttl (same truth table for ts <= now)... kept as ts + ttl <= now early return inverted",
